@@ -463,6 +463,19 @@ func init() {
 				if _, ok := nd.(*ast.ReturnStmt); ok {
 					stops = true
 				}
+				// `for draining { ... } else { draining = false }`: the loop flag cleared on the gap
+				if fs, ok := nd.(*ast.ForStmt); ok && fs.Cond != nil && fs.Init == nil && fs.Post == nil {
+					if fl := prog.IdentObjPlain(info, fs.Cond); fl != nil {
+						ast.Inspect(fs.Body, func(m ast.Node) bool {
+							if as, isAs := m.(*ast.AssignStmt); isAs && len(as.Lhs) == 1 && len(as.Rhs) == 1 && prog.IdentObjPlain(info, as.Lhs[0]) == fl {
+								if tv, has := info.Types[as.Rhs[0]]; has && tv.Value != nil && tv.Value.String() == "false" {
+									stops = true
+								}
+							}
+							return true
+						})
+					}
+				}
 				return true
 			})
 			if !stops {
